@@ -4,9 +4,14 @@
 package main
 
 import (
+	"bytes"
 	"encoding/json"
 	"flag"
 	"fmt"
+	"go/ast"
+	"go/parser"
+	"go/printer"
+	"go/token"
 	"os"
 	"os/exec"
 	"path/filepath"
@@ -153,10 +158,24 @@ func prelude(name, pkg string) []byte {
 }
 
 // overlayFor builds the virtual files for one unit.
+// patchedHarness: harness files whose entries were unbound because they no
+// longer compile against /repo (key: path under the harness directory).
+var patchedHarness = map[string][]byte{}
+
+// unboundEntries: entries whose body was replaced (they are skipped).
+var unboundEntries = map[string]bool{}
+
+func readHarness(path string) ([]byte, error) {
+	if d, ok := patchedHarness[path]; ok {
+		return d, nil
+	}
+	return os.ReadFile(path)
+}
+
 func overlayFor(hdir string, u Unit, overlay map[string][]byte) {
 	pkg := pkgName(u.Dir)
 	for _, f := range u.Files {
-		data, err := os.ReadFile(filepath.Join(hdir, f))
+		data, err := readHarness(filepath.Join(hdir, f))
 		if err != nil {
 			fatal("ENGINE-CONFIG: %v", err)
 		}
@@ -261,6 +280,21 @@ func cmdCheck(args []string) int {
 		unitRedirects[k] = m
 	}
 	prog, pkgs := loadProgram(patterns, overlay)
+	for attempt := 0; prog == nil && attempt < 4; attempt++ {
+		if !unbindBroken(hdir, cfg) {
+			break
+		}
+		for _, u := range cfg.Units {
+			overlayFor(hdir, u, overlay)
+		}
+		prog, pkgs = loadProgram(patterns, overlay)
+	}
+	if prog == nil {
+		for _, e := range loadErrors {
+			fmt.Printf("ENGINE-BIND: %v\n", e)
+		}
+		os.Exit(3)
+	}
 
 	var results []*EntryResult
 	for uk, u := range cfg.Units {
@@ -273,6 +307,9 @@ func cmdCheck(args []string) int {
 				continue
 			}
 			if *tier == "quick" && contains(cfg.SkipEntriesQuick, entry) {
+				continue
+			}
+			if unboundEntries[entry] {
 				continue
 			}
 			fn := ssapkg.Func(entry)
@@ -308,7 +345,12 @@ func cmdCheck(args []string) int {
 				CoverLabels: coverLabels(fn)})
 		}
 	}
-	return report(*id, *tier, seed, cfg, hdir, results, findings, t0, *noReplay, prog)
+	rc := report(*id, *tier, seed, cfg, hdir, results, findings, t0, *noReplay, prog)
+	if rc == 0 && len(unboundEntries) > 0 {
+		// part of the check could not be bound to the code under analysis: no verdict
+		rc = 3
+	}
+	return rc
 }
 
 func contains(xs []string, s string) bool {
@@ -327,6 +369,133 @@ func pick(m map[string]int, tier string, def int) int {
 	return def
 }
 
+var loadErrors []packages.Error
+
+// unbindBroken: type errors inside harness functions (a kernel changed its
+// signature, a name disappeared): the enclosing harness functions get an empty
+// body and are skipped, so that the other entries still run. Returns false if
+// an error lies outside harness function bodies.
+func unbindBroken(hdir string, cfg *Config) bool {
+	type loc struct {
+		file string
+		line int
+	}
+	var locs []loc
+	for _, e := range loadErrors {
+		// Pos is "file:line:col"
+		parts := strings.Split(e.Pos, ":")
+		if len(parts) < 2 || !strings.Contains(parts[0], "zz_verif_") {
+			return false
+		}
+		n, err := strconv.Atoi(parts[1])
+		if err != nil {
+			return false
+		}
+		locs = append(locs, loc{parts[0], n})
+	}
+	if len(locs) == 0 {
+		return false
+	}
+	progress := false
+	for _, u := range cfg.Units {
+		for _, f := range u.Files {
+			virt := filepath.Join(repoDir, u.Dir, "zz_verif_"+filepath.Base(f))
+			var lines []int
+			for _, l := range locs {
+				if l.file == virt {
+					lines = append(lines, l.line)
+				}
+			}
+			if len(lines) == 0 {
+				continue
+			}
+			src, err := readHarness(filepath.Join(hdir, f))
+			if err != nil {
+				return false
+			}
+			fset := token.NewFileSet()
+			af, err := parser.ParseFile(fset, virt, src, parser.ParseComments)
+			if err != nil {
+				return false
+			}
+			for _, ln := range lines {
+				found := false
+				for _, d := range af.Decls {
+					fd, ok := d.(*ast.FuncDecl)
+					if !ok || fd.Body == nil {
+						continue
+					}
+					if fset.Position(fd.Pos()).Line <= ln && ln <= fset.Position(fd.End()).Line {
+						if fset.Position(fd.Body.Lbrace).Line > ln {
+							return false // the error is in the signature
+						}
+						if fd.Type.Results != nil && len(fd.Type.Results.List) > 0 {
+							fd.Body = &ast.BlockStmt{List: []ast.Stmt{&ast.ExprStmt{X: &ast.CallExpr{Fun: ast.NewIdent("panic"), Args: []ast.Expr{&ast.BasicLit{Kind: token.STRING, Value: "\"unbound harness function\""}}}}}}
+						} else {
+							fd.Body = &ast.BlockStmt{}
+						}
+						unboundEntries[fd.Name.Name] = true
+						fmt.Printf("ENGINE-UNBOUND: %s no longer compiles against /repo (%s:%d); it is skipped\n", fd.Name.Name, filepath.Base(f), ln)
+						found, progress = true, true
+					}
+				}
+				if !found {
+					return false
+				}
+			}
+			// drop imports that became unused
+			var buf bytes.Buffer
+			if err := printer.Fprint(&buf, fset, af); err != nil {
+				return false
+			}
+			patchedHarness[filepath.Join(hdir, f)] = fixUnusedImports(buf.Bytes())
+		}
+	}
+	return progress
+}
+
+// fixUnusedImports blanks imports no selector refers to any more.
+func fixUnusedImports(src []byte) []byte {
+	fset := token.NewFileSet()
+	f, err := parser.ParseFile(fset, "x.go", src, parser.ParseComments)
+	if err != nil {
+		return src
+	}
+	used := map[string]bool{}
+	ast.Inspect(f, func(n ast.Node) bool {
+		if sel, ok := n.(*ast.SelectorExpr); ok {
+			if id, ok := sel.X.(*ast.Ident); ok {
+				used[id.Name] = true
+			}
+		}
+		return true
+	})
+	for _, imp := range f.Imports {
+		name := ""
+		if imp.Name != nil {
+			name = imp.Name.Name
+		} else {
+			p := strings.Trim(imp.Path.Value, "\"")
+			name = p[strings.LastIndex(p, "/")+1:]
+			if strings.HasPrefix(name, "v") && len(name) <= 3 && strings.Count(p, "/") > 0 {
+				q := p[:strings.LastIndex(p, "/")]
+				name = q[strings.LastIndex(q, "/")+1:]
+			}
+		}
+		if name == "_" || name == "." {
+			continue
+		}
+		if !used[name] {
+			imp.Name = ast.NewIdent("_")
+		}
+	}
+	var buf bytes.Buffer
+	if err := printer.Fprint(&buf, fset, f); err != nil {
+		return src
+	}
+	return buf.Bytes()
+}
+
 func loadProgram(patterns []string, overlay map[string][]byte) (*ssa.Program, []*packages.Package) {
 	cfg := &packages.Config{
 		Mode: packages.NeedName | packages.NeedFiles | packages.NeedCompiledGoFiles | packages.NeedImports |
@@ -340,16 +509,17 @@ func loadProgram(patterns []string, overlay map[string][]byte) (*ssa.Program, []
 		fatal("ENGINE-LOAD: %v", err)
 	}
 	bad := false
+	loadErrors = nil
 	packages.Visit(pkgs, nil, func(p *packages.Package) {
 		for _, e := range p.Errors {
 			if strings.HasPrefix(p.PkgPath, modPath) {
-				fmt.Printf("ENGINE-BIND: %s: %v\n", p.PkgPath, e)
+				loadErrors = append(loadErrors, e)
 				bad = true
 			}
 		}
 	})
 	if bad {
-		os.Exit(3)
+		return nil, nil
 	}
 	prog, _ := ssautil.AllPackages(pkgs, ssa.InstantiateGenerics)
 	prog.Build()
@@ -448,7 +618,12 @@ func nativeRun(hdir string, u Unit, scripts map[string]*Script) (map[string]*Nat
 	pkg := pkgName(u.Dir)
 	replace := map[string]string{}
 	for _, f := range u.Files {
-		replace[filepath.Join(repoDir, u.Dir, "zz_verif_"+filepath.Base(f))] = filepath.Join(hdir, f)
+		src := filepath.Join(hdir, f)
+		if d, ok := patchedHarness[src]; ok {
+			src = filepath.Join(tmp, "patched_"+filepath.Base(f))
+			os.WriteFile(src, d, 0644)
+		}
+		replace[filepath.Join(repoDir, u.Dir, "zz_verif_"+filepath.Base(f))] = src
 	}
 	for _, sh := range u.Shims {
 		replace[filepath.Join(repoDir, sh.Dir, "zz_verif_"+filepath.Base(sh.File))] = filepath.Join(hdir, sh.File)
